@@ -1780,18 +1780,12 @@ func (p *Parser) parseRightSideExpression(left ast.BooleanExpression, single boo
 		if p.curToken.Literal == token.RPAREN {
 			return grouped, impData, nil
 		}
-		operator = p.curToken.Type
-		if negated {
-			operator = getNegatedBooleanOperator(p.curToken.Type)
-		}
-		binaryExpression := &ast.BinaryExpression{Left: grouped, Operator: operator}
-		boolExpression, exprImpData, err := p.parseBooleanExpression(false, negated, scriptName)
+		rest, restImpData, err := p.parseRightSideExpression(grouped, single, negated, scriptName)
 		if err != nil {
 			return nil, nil, err
 		}
-		impData.add(exprImpData)
-		binaryExpression.Right = boolExpression
-		return binaryExpression, impData, nil
+		impData.add(restImpData)
+		return rest, impData, nil
 	} else if p.curToken.Type == token.OR {
 		operator := curTokenType
 		right, exprImpData, err := p.parseBooleanExpression(false, negated, scriptName)
